@@ -224,9 +224,22 @@ pub fn check(sc: &Scenario, ex: &mut Exec) -> (Verdict, Option<String>) {
     let (mut orig_s, mut orig_p, mut dp) = (orig_s, orig_p, dp);
     if q.keys.iter().any(|k| k.group_expr.is_some()) && key_idx_d.len() == q.keys.len() && q.aggs.iter().all(|a| dp.col(&a.alias).is_some()) {
         ex.stats.probe("non_unique_output_keys");
+        let dp_cols: Vec<String> = dp.columns.clone();
         let rank = |rs: &mut ResultSet, kidx: &[usize], counts: Option<&std::collections::BTreeMap<Vec<String>, usize>>| -> std::collections::BTreeMap<Vec<String>, usize> {
             let aidx: Vec<usize> = q.aggs.iter().filter_map(|a| rs.col(&a.alias)).collect();
-            let vals = |r: &Vec<Cell>| -> Vec<f64> { aidx.iter().map(|i| num(&r[*i]).unwrap_or(f64::NEG_INFINITY)).collect() };
+            // a NULL aggregate (no non-NULL value in the group) ranks where the DP side's reading of
+            // it ranks: at what an empty group reads
+            let zeros: Vec<f64> = q.aggs.iter().filter(|a| rs.col(&a.alias).is_some()).map(|a| dp_cols.iter().position(|c| c == &a.alias).map_or(0.0, |i| zero_of(&zero_row, i))).collect();
+            // (values rounded to 9 significant digits: the two sides add floats in another order,
+            // equal aggregates of two groups must tie, not be ordered by their last bits)
+            let sig = |v: f64| -> f64 {
+                if v == 0.0 || !v.is_finite() {
+                    return v;
+                }
+                let m = 10f64.powi(8 - v.abs().log10().floor() as i32);
+                (v * m).round() / m
+            };
+            let vals = |r: &Vec<Cell>| -> Vec<f64> { aidx.iter().enumerate().map(|(j, i)| sig(num(&r[*i]).unwrap_or(zeros[j]))).collect() };
             let mut groups: std::collections::BTreeMap<Vec<String>, Vec<Vec<Cell>>> = Default::default();
             for r in rs.rows.drain(..) {
                 groups.entry(kidx.iter().map(|i| r[*i].key()).collect()).or_default().push(r);
